@@ -199,6 +199,7 @@ PROPS = {
         "engines": ["codec", "json", "snap"],
         "thorough_engines": ["codec", "json", "snap", "snapx"],
         "footprint": {"parsed": "*", "jparsed": "*", "restored": "*"},
+        "hang_is_violation": True,   # "never panics, loops or aborts": a parse that does not return is a failing input
         "nontrivial": r"^parsed err |^restored err|^jparsed err",
         "rule": "E-codec malformed stream: 1500 (thorough 20000 per shard) strings per type obtained from a valid encoding by character-level "
                 "deletion, insertion, substitution (structural characters, digits, letters, multi-byte characters), duplication or removal of a "
